@@ -18,8 +18,12 @@ def des (s : Sig) : Bool := s.kind != 'x'
 /-- ideal signature relation: a genuine signature verifies under exactly its own key -/
 def ver (k : Nat) (s : Sig) : Bool := s.kind == 'g' && s.key == k
 
+/-- a signer reference may end in a letter naming the wire encoding of the key (a, u, v, t): the key is the same -/
+def keyIdx (s : String) : Option Nat :=
+  (String.ofList (s.toList.filter Char.isDigit)).toNat?
+
 def parseIdx (s : String) : Option (List Nat) :=
-  if s == "-" then some [] else (s.splitOn ",").mapM (·.toNat?)
+  if s == "-" then some [] else (s.splitOn ",").mapM keyIdx
 
 def parseSig (s : String) : Option Sig :=
   if s == "x" then some ⟨'x', 0⟩
